@@ -12,7 +12,7 @@
  * asan build. */
 #include "drv_util.h"
 
-static long ncases(int tier) { return tier ? 300000 : 30000; }
+static long ncases(int tier) { return tier ? 300000 : 60000; }
 
 /* GEN-BEGIN (generator shared verbatim by c03.c and c04.c) */
 #define EPS 2.220446049250313e-16
